@@ -30,6 +30,7 @@ class StubPolicy:
         self.tables = {"svd": [], "qr": [], "solve": [], "eigh": [], "lstsq": []}  # (arg array, outputs): input-from-output generation
         self.seed_streams = {}
         self.global_stream = None
+        self.rng = None  # None: s_check_random_state below | callable(seed): e.g. the real Backend.check_random_state (C16)
 
 
 POLICY = StubPolicy()
@@ -138,6 +139,8 @@ def sorted_nonneg(base, r):
 def s_solve(A, B):
     A = sarr(A)
     B = sarr(B)
+    if A.shape[0] == 0:  # empty system (np.linalg.solve returns an empty array)
+        return np.empty(B.shape, dtype=object).view(SArr)
     hit = _lookup("solve", (A, B))
     if hit is not None:
         return hit.copy()
@@ -305,15 +308,29 @@ def s_eigh(A):
 
 # ----------------------------------------------------------------------------- RNG stub
 _RND = z3.Function("rnd", z3.IntSort(), z3.IntSort(), z3.IntSort(), z3.RealSort())
+# one uninterpreted function per distribution kind: RandomState(s).randint(...) and RandomState(s).random_sample(...)
+# are different functions of the same seed/draw index (two streams created from one int seed must not be
+# forced equal across kinds: an integer draw constrained to {0..n-1} and a uniform draw in [0,1) would clash)
+_RND_KIND = {"u": _RND}
 
 
-class SymRandomState(np.random.RandomState):
+def _rnd_fun(kind):
+    f = _RND_KIND.get(kind)
+    if f is None:
+        f = _RND_KIND[kind] = z3.Function("rnd_" + kind, z3.IntSort(), z3.IntSort(), z3.IntSort(), z3.RealSort())
+    return f
+
+
+_REAL_RANDOMSTATE = np.random.RandomState  # C16 rebinds np.random.RandomState to a stream class while a harness runs
+
+
+class SymRandomState(_REAL_RANDOMSTATE):
     """Random stream model.  seed=None: the *global* stream (every draw is a fresh, unconstrained
     variable; a draw counter is kept).  Otherwise: draw k at position p is the uninterpreted term
     rnd(seed, k, p) -- equal seeds and equal draw orders give equal terms, nothing else is known."""
 
     def __new__(cls, seed=None, label="seeded"):
-        o = np.random.RandomState.__new__(cls)
+        o = _REAL_RANDOMSTATE.__new__(cls)
         return o
 
     def __init__(self, seed=None, label="seeded"):
@@ -336,7 +353,9 @@ class SymRandomState(np.random.RandomState):
             if self._vt_seed is None:
                 v = sym.CTX.fresh("grnd")
             else:
-                v = _RND(z3.IntVal(int(self._vt_seed)), z3.IntVal(k), z3.IntVal(p))
+                v = _rnd_fun(kind)(z3.IntVal(int(self._vt_seed)), z3.IntVal(k), z3.IntVal(p))
+                # registered like a variable so that Ctx.identical can refute by random evaluation (z3.substitute accepts applications)
+                sym.CTX.vars.setdefault(f"rnd_{kind}({int(self._vt_seed)},{k},{p})", v)
             if lo is not None:
                 sym.CTX.add_fact("def", v >= lo)
             if hi is not None:
@@ -426,6 +445,8 @@ def global_stream():
 
 
 def s_check_random_state(seed):
+    if callable(POLICY.rng):
+        return POLICY.rng(seed)
     if seed is None:
         return global_stream()
     if isinstance(seed, SymRandomState):
